@@ -56,17 +56,30 @@ LEVEL_TEXT = (
     "dof-0 conventions, chi-bar mixture linearity and clamp; Quantile_Gauss: exact inverse given the exact inverse error function and error <= sqrt2 sigma delta "
     "for an Inv_Erf accurate to delta; Inv_CDF_Poisson(0,c) is the exact inverse; KDE: the tabulation never indexes out of bounds; the automatic bandwidth's two-pass variance is >= 0 for non-negative weights, the bandwidth is > 0 unless every "
     "positively weighted sample sits at the weighted mean, and it is unchanged by a common offset of the samples. "
-    "NOT theorems: numeric agreement of GammaQ/GammaP/GammaLn/Inv_GammaQ/Inv_Erf/"
+    "Fourth pass (C07_Proofs_Coh.v): Poisson CDF 'from 0 to 1': the partial sums are non-decreasing in the count over any number of steps and converge to 1 for every mean (C07_poisson_cdf_from_0_to_1); "
+    "as a function of the mean CDF_Poisson(., n) has derivative -PMF(n), is strictly decreasing, 1-Lipschitz, with a unique inverse (C07_poisson_cdf_in_the_mean), hence Inv_CDF_Poisson(n > 0) inverts "
+    "CDF_Poisson to the accuracy delta of Inv_GammaQ in the mean, given that GammaQ returns Q(n+1, mu) (C07_inv_cdf_poisson_accuracy); CDF_Gauss is 1/(sqrt(2 pi) sigma)-Lipschitz, so an Inv_Erf accurate to delta "
+    "gives |CDF_Gauss(Quantile_Gauss(p)) - p| <= delta/sqrt(pi) for all mu, sigma > 0 (C07_quantile_gauss_probability_accuracy); Inv_Erf itself is now modelled (inv_erf_fn: +-10 within 1e-16 of +-1, exit for |p| >= 1, "
+    "else Find_Root(erf(x) - p, -10, 10, 1e-4) with Find_Root a parameter) and run against the library: its guards (C07_inv_erf_guards), the sign change over [-10,10] and the unique root strictly inside for |p| <= 1 - 2^-53 "
+    "(C07_inv_erf_bracket, from 1 - erf 10 <= e^-100 < 2^-53), and the chain 'Find_Root within 1e-4 of the root => Quantile_Gauss within sqrt2 sigma 1e-4 of the quantile and CDF within 1e-4/sqrt(pi) < 5.78e-5 of p' for 2^-54 <= p <= 1 - 2^-54 "
+    "(C07_quantile_gauss_lib_accuracy), the conventions at p = 0, 1 and the exit outside [0,1] (C07_quantile_gauss_lib_ends); PDF_Gauss_2D is positive, the product of the marginals, and its iterated integral over any rectangle is the "
+    "product of the CDF differences (C07_gauss_2d); chi-bar-square for weight vectors of any length with non-negative weights: density >= 0 whatever GammaLn returns, and with weight sum <= 1 and component CDFs in [0,1] non-decreasing the clamp is "
+    "inactive, the mixture CDF lies in [0,1] and is non-decreasing on the whole line (C07_chibar_nonnegative_weights), CDF(v) - CDF(u) = RInt density u v for 0 < u <= v carried from the components of non-zero weight "
+    "(C07_chibar_cdf_difference_is_integral; hypotheses on the components remain hypotheses: they are GammaP/GammaLn facts, C06); KDE (C07_kde_estimate_is_mixture_partial): every accepted table of Perform_KDE samples one function "
+    "f(x) = sum_e w_e K((x-p_e)/h)/(h W) over the sorted sample extended by the pseudo data (an explicit list independent of x, any sample size) on the 150-point grid, K((x-p)/h)/h is the normal density, so "
+    "int_u^v f = sum_e w_e (Phi((v-p_e)/h) - Phi((u-p_e)/h))/W, between 0 and W_ext/W for non-negative weights. "
+    "NOT theorems: that Find_Root meets its request (C02), numeric agreement of GammaQ/GammaP/GammaLn/Inv_GammaQ/"
     "Binomial_Coefficient with the functions they approximate (C06/C02), and the KDE's normalisation (it divides by an approximate Simpson integral; S4 integrates the returned cubic segments exactly and allows 1e-6 plus the rounding of the abscissae, ulp(x)/2 times the total variation of the estimate, which matters only for windows 1e9 or more widths away from the origin) — these are "
     "S4 predicates on the implementation for every generated case. Correspondence: all closed forms, sums, likelihoods are run model-vs-C++ (bit-identical); "
     "functions that delegate (CDF_Poisson, Inv_CDF_Poisson, PDF/CDF_Chi_Square, chi-bar, Quantile_Gauss, PMF/CDF_Binomial) are run with the delegate's C++ "
-    "result supplied as an oracle; Perform_KDE's table is compared up to its one normalisation factor.")
+    "result supplied as an oracle; Inv_Erf and Quantile_Gauss are additionally run with only Find_Root supplied as an oracle (ops inverf, quantilelib; the oracle is keyed by the bracket, the accuracy and the values of the function "
+    "the model hands over at -10, 0, 10, so the request is compared as well), with S4 predicates erf(Inv_Erf(p)) = p to 2/sqrt(pi) 1e-4, the +-10 conventions and the exits; Perform_KDE's table is compared up to its one normalisation factor.")
 LEVEL_NOTE = ("Coq 8.16.1 kernel, Coquelicot; erf is defined as 2/sqrt(PI) RInt exp(-t^2) 0 x; M_PI is a model parameter (PI in the theorems, the double in the run); "
-              "GammaQ, GammaP, Inv_GammaQ, GammaLn, Inv_Erf, Binomial_Coefficient are model parameters whose needed properties are explicit hypotheses; "
+              "GammaQ, GammaP, Inv_GammaQ, GammaLn, Inv_Erf, Binomial_Coefficient are model parameters whose needed properties are explicit hypotheses (Inv_Erf is also modelled itself, with Find_Root as its parameter); "
               "std::sort modelled by insertion sort (specification); Interpolation/Integrate inside Perform_KDE are not modelled (C01/C03/C08)")
 TOL = (1e-13, 0.0)
 TRUSTED = ["std::sort is modelled by its specification (ascending by value; generated samples with equal values carry equal weights)",
-           "the oracle pass: harness ops d_gammaQ/d_gammaP/d_inv_gammaQ/d_gammaLn/d_inv_erf/d_binom return the library's own values, which the model driver looks up by bit-identical arguments"]
+           "the oracle pass: harness ops d_gammaQ/d_gammaP/d_inv_gammaQ/d_gammaLn/d_inv_erf/d_binom/d_find_root return the library's own values, which the model driver looks up by bit-identical arguments"]
 ASSUMPTIONS = ["unsigned arguments are generated below 2^31", "KDE samples have positive weights and at least half of them lie inside the window"]
 
 GLT = [-0.9602898564975363, -0.7966664774136267, -0.5255324099163290, -0.1834346424956498,
@@ -329,6 +342,34 @@ def gen_quantile(rng, n):
         p = rng.choice([0.5, 0.975, 0.025, 0.84, rng.random(), rng.random(), logu(rng, 1e-15, 0.5), 1 - logu(rng, 1e-15, 0.5), 1.0, 0.0])
         mu = rng.choice([0.0, rng.uniform(-10, 10), rng.choice([-1, 1]) * logu(rng, 1e-3, 1e3)]); s = rng.choice([1.0, logu(rng, 1e-3, 1e3)])
         out.append(Proto(f"quantile {hx(p)} {hx(mu)} {hx(s)}", [("inv_erf", (2.0 * p - 1.0,))], ("quantile",), tol=(1e-12, 0.0)))
+    return out
+
+
+def calls_inv_erf_fn(p):
+    """the Find_Root request Inv_Erf makes (none when one of its three guards answers)"""
+    if p != p or abs(p - 1.0) < 1e-16 or abs(p + 1.0) < 1e-16 or abs(p) >= 1.0: return []
+    return [("find_root", (-10.0, 10.0, 1e-4, -1.0 - p, 0.0 - p, 1.0 - p))]
+
+
+def gen_inverf(rng, n):
+    """Inv_Erf itself (guards at +-1, exit beyond, Find_Root inside) and Quantile_Gauss on top of it, with Find_Root as the only oracle"""
+    out = []
+    for _ in range(n):
+        sg = rng.choice([-1.0, 1.0])
+        p = rng.choice([0.0, 0.5, -0.5, rng.uniform(-1, 1), rng.uniform(-1, 1), sg * (1 - logu(rng, 1e-16, 0.5)), sg * logu(rng, 1e-300, 1e-3),
+                        sg * NA(1.0, 0.0), sg * NA(NA(1.0, 0.0), 0.0), sg * (1 - 2e-16), sg * (1 - 1e-16)])
+        out.append(Proto(f"inverf {hx(p)}", calls_inv_erf_fn(p), ("inverf",), tol=(1e-12, 0.0)))
+    for p in (1.0, -1.0):
+        out.append(Proto(f"inverf {hx(p)}", (), ("inverf", "end")))
+    for p in (NA(1.0, 2.0), -NA(1.0, 2.0), 1.5, -1.5, logu(rng, 1.0, 1e3), -logu(rng, 1.0, 1e3), math.inf, -math.inf):
+        out.append(Proto(f"inverf {hx(p)}", (), ("inverf", "malformed")))
+    for _ in range(n):
+        p = rng.choice([0.5, 0.975, 0.025, rng.random(), rng.random(), logu(rng, 1e-15, 0.5), 1 - logu(rng, 1e-15, 0.5), 1.0, 0.0, NA(1.0, 0.0), 2.0 ** -54, 5e-324])
+        mu = rng.choice([0.0, rng.uniform(-10, 10), rng.choice([-1, 1]) * logu(rng, 1e-3, 1e3)]); s = rng.choice([1.0, logu(rng, 1e-3, 1e3)])
+        out.append(Proto(f"quantilelib {hx(p)} {hx(mu)} {hx(s)}", calls_inv_erf_fn(2.0 * p - 1.0), ("quantilelib",), tol=(1e-12, 0.0)))
+    for p in (-0.25, 1.25, NA(1.0, 2.0), -1e-16, -logu(rng, 1e-15, 1.0), 1 + logu(rng, 1e-15, 1.0)):
+        mu = rng.uniform(-10, 10); s = logu(rng, 1e-3, 1e3)
+        out.append(Proto(f"quantilelib {hx(p)} {hx(mu)} {hx(s)}", calls_inv_erf_fn(2.0 * p - 1.0), ("quantilelib", "malformed")))
     return out
 
 
@@ -800,6 +841,8 @@ def generate(rng, tier):
     # sessions with requests outside the ranges; windows far from the origin (third pass; drawn last for the same reason)
     protos += gen_liksess(rng, 90 * f, sizes(rng, 12 if big else 3, 33, 3000 if big else 600))
     protos += gen_kde_far(rng, 120 if big else 24, 150 if big else 40)
+    # Inv_Erf with Find_Root as the oracle (fourth pass; drawn last)
+    protos += gen_inverf(rng, 60 * f)
     return resolve(protos)
 
 
@@ -1110,8 +1153,27 @@ def predicates(c, io):
             # Inv_GammaP's stated accuracy (Halley iteration to 1e-8 relative in x on a P accurate to _acc): 1e-7, and 1e-3 through the quadrature branch
             tol = (1e-7 if n + 1 <= 100 else 1e-3) if n > 0 else 4 * EPS * max(1.0, abs(math.log(cc)))
             if not abs(back - cc) <= tol: out.append((op + ":inverts", f"CDF_Poisson(Inv_CDF_Poisson({n},{cc!r}) = {mu!r}, {n}) = {back!r}"))
-    elif op == "quantile":
+    elif op == "inverf":
+        p = tokf(t[1])
+        if abs(p) > 1:
+            if not exited: out.append((op + ":guard", f"Inv_Erf({p!r}) = {head[0]!r} was answered although |p| > 1"))
+            return out
+        if exited: return [(op + ":exit", f"Inv_Erf({p!r}) terminated the process")]
+        e, back = head[0], extra[0]
+        if abs(p) == 1:
+            if e != 10.0 * p: out.append((op + ":ends", f"Inv_Erf({p!r}) = {e!r}, the stated convention is {10.0*p!r}"))
+        else:
+            # a sign change of the double function erf(x) - p is bracketed to 1e-4 in x; erf' <= 2/sqrt(pi); libm's erf is accurate to an ulp
+            if not abs(back - p) <= 2 / math.sqrt(math.pi) * 1e-4 + 4 * EPS: out.append((op + ":inverts", f"erf(Inv_Erf({p!r}) = {e!r}) = {back!r}"))
+            if not (-10.0 <= e <= 10.0) or (p != 0 and e != 0 and (e > 0) != (p > 0) and abs(e) > 1e-4): out.append((op + ":range", f"Inv_Erf({p!r}) = {e!r}"))
+    elif op in ("quantile", "quantilelib"):
         p, mu, s = tokf(t[1]), tokf(t[2]), tokf(t[3])
+        if op == "quantilelib" and (2.0 * p - 1.0 > 1 or 2.0 * p - 1.0 < -1):
+            if not exited: out.append((op + ":guard", f"Quantile_Gauss({p!r},..) = {head[0]!r} was answered although p lies outside [0,1]"))
+            return out
+        if op == "quantilelib" and p in (0.0, 1.0) and not exited:
+            want = mu + math.sqrt(2.0) * s * (10.0 if p == 1.0 else -10.0)
+            if head[0] != want: out.append((op + ":ends", f"Quantile_Gauss({p!r},{mu!r},{s!r}) = {head[0]!r}, the stated convention is {want!r}"))
         if 0 < p < 1:
             if exited: return [(op + ":exit", "a well-formed request terminated the process")]
             q, back = head[0], extra[0]
@@ -1256,7 +1318,8 @@ def nontrivial(c, io):
     if op == "binomial": return int(t[1]) >= 17 or int(t[3]) + int(t[4]) > int(t[1])
     if op == "poisson": return tokf(t[1]) >= 100 or tokf(t[1]) == 0 or int(t[2]) >= 50 or any(0 < x < 1e-6 or 1 - 1e-6 < x < 1 for x in head[1::2])
     if op == "invpoisson": return int(t[1]) >= 50 or int(t[1]) == 0 or not (1e-6 < tokf(t[2]) < 1 - 1e-6)
-    if op == "quantile": return not (1e-6 < tokf(t[1]) < 1 - 1e-6)
+    if op in ("quantile", "quantilelib"): return not (1e-6 < tokf(t[1]) < 1 - 1e-6)
+    if op == "inverf": return not (abs(tokf(t[1])) < 1 - 1e-6)
     if op == "lik": return int(t[2]) >= 50 or tokf(t[1]) + tokf(t[3]) >= 100 or tokf(t[1]) == 0
     if op == "lik0": return int(t[2]) >= 50 or tokf(t[1]) >= 100
     if op == "likseq": return int(t[1]) >= 2
